@@ -3,11 +3,14 @@ the FTP server only ever touches filesystem paths inside the shell's root.
 
 Engine E1 (native symbolic `str`): the real ftp.toSegments, FTPShell._path / FTPAnonymousShell._path
 (-> FilePath.descendant -> FilePath.child), and the real FTP.ftp_CWD / ftp_MKD / ftp_RMD / ftp_DELE /
-ftp_RNFR+ftp_RNTO command handlers with the real FTPShell on a recording fake `os` layer.
+ftp_RNFR+ftp_RNTO command handlers with the real FTPShell on a strict fake `os` / `os.path` over a
+modelled directory tree (multi-path functions such as removedirs walk it with their real semantics).
 Uses the posixpath rebinding of props.c26 (pure-Python normpath/abspath/join inside
 twisted.python.filepath, validated against os.path on every run).
 """
+import errno
 import os
+import posixpath
 from typing import List
 
 from vlib import api
@@ -33,9 +36,19 @@ BOUNDS_TEXT = ("root /r/ab (sibling /r/abc in mind); inductive step: working dir
                "segments of <= c characters each (any value toSegments can have produced) and a path argument of "
                "<= n arbitrary code points; sessions: CWD p1 then one of CWD/MKD/RMD/DELE/RNFR+RNTO with p2, "
                "len(p1) + len(p2) <= s, from the initial working directory")
-OUTSIDE = ["symbolic links (excluded by the property) and any real filesystem: os / os.path calls made by FTPShell "
-           "and FilePath are recorded by a fake (stat says 'directory', for DELE 'regular file'; nothing "
-           "raises OSError)",
+OUTSIDE = ["symbolic links (excluded by the property) and any real filesystem: inside twisted.protocols.ftp and "
+           "twisted.python.filepath `os`, `os.path` (and `shutil` if imported) are a strict fake over a modelled "
+           "tree ('/', '/r' holding only 'ab', the root; below the root a path exists from the first time the "
+           "session looks at it, as a directory, for DELE as a regular file).  removedirs / makedirs / renames / "
+           "rmtree run CPython's algorithms on that tree and every path they walk is recorded; any unmodelled "
+           "filesystem function raises and is reported as a violation; errno behaviour is modelled for ENOENT, "
+           "EEXIST, ENOTDIR, EISDIR, ENOTEMPTY only",
+           "pure existence lookups (stat/exists) of the root's own ancestors '/r' and '/' are tolerated: "
+           "os.makedirs(root) for 'MKD /' asks whether '/r' exists before failing with EEXIST; listing, creating, "
+           "removing, renaming or chmod-ing anything outside the root is a violation, as is any lookup of a "
+           "non-ancestor outside the root",
+           "the builtin open() (FilePath.open / create; not reached by the session commands) and functions "
+           "imported inside a function body",
            "the command line parser (FTP.lineReceived/processCommand splitting the verb from the argument) and the "
            "data-connection commands LIST/NLST/RETR/STOR/APPE/SIZE/MDTM (they obtain their path through the same "
            "toSegments(self.workingDirectory, path) + shell._path calls that are checked here)",
@@ -49,7 +62,7 @@ ASSUMPTIONS = ["posixpath.normpath/abspath/join replaced by CPython's pure-Pytho
                "inductive step assumes the working directory invariant (every segment non-empty, not '.'/'..', no "
                "'/' or NUL); the same harness shows toSegments re-establishes it, and [] satisfies it"]
 EXPLANATION = ("real toSegments + shell._path on a symbolic working directory and path argument; real FTP command "
-               "handlers + FTPShell on a recording fake os: every path produced or touched is the root or a "
+               "handlers + FTPShell on a strict fake os over a modelled tree: every path produced or touched is the root or a "
                "normalised path below it")
 
 ROOT = _c26.ROOT
@@ -114,41 +127,329 @@ def anonymous(cwd: List[str], path: str) -> bool:
     return _contained(p.path, False)
 
 
-# ---- sessions against the real command handlers, recording fake os ----------------------------
+# ---- sessions against the real command handlers, strict fake filesystem -----------------------
 
-class _FakeOS:
-    """stands in for the `os` module inside twisted.protocols.ftp and twisted.python.filepath"""
+class _Unmodelled(Exception):
+    pass
 
-    def __init__(self, log, isdir):
-        self._log = log
-        mode = 0o040755 if isdir else 0o100644
-        self._st = os.stat_result((mode, 1, 1, 1, 0, 0, 0, 0, 0, 0))
 
+def _split(p):
+    """posixpath.split"""
+    i = p.rfind("/") + 1
+    head, tail = p[:i], p[i:]
+    if head and head != "/" * len(head):
+        head = head.rstrip("/")
+    return head, tail
+
+
+def _err(code):
+    return OSError(code, os.strerror(code))      # no path in the message: it may be symbolic
+
+
+_PURE_OS = ("sep", "altsep", "extsep", "curdir", "pardir", "linesep", "name", "error", "fspath", "strerror",
+            "fsencode", "fsdecode", "R_OK", "W_OK", "X_OK", "F_OK", "O_CREAT", "O_EXCL", "O_RDWR", "O_RDONLY",
+            "O_WRONLY", "O_TRUNC", "O_APPEND", "PathLike")
+_PURE_PATH = ("join", "split", "basename", "dirname", "splitext", "normpath", "isabs", "sep", "commonprefix")
+
+
+class _FakeFS:
+    """Strict stand-in for `os`, `os.path` and `shutil` inside twisted.protocols.ftp and
+    twisted.python.filepath.  Every function that reaches the filesystem is either modelled on the
+    tree below (recording EVERY path it touches, also the ones touched by the multi-path functions
+    removedirs / makedirs / renames / rmtree on the way) or raises _Unmodelled and is noted in
+    `unmodelled`, which the oracle reports; nothing ever falls through to the real os.
+
+    The tree: '/', '/r' and the root '/r/ab' are directories and '/r' holds nothing but 'ab'.
+    Below the root nothing exists until the session looks at it: the first stat / exists / listdir
+    / islink / access of a path inside the root makes it exist (a directory, or a regular file when
+    `asfile`) together with its missing ancestors, unless it was removed before.  So the client has
+    prepared exactly what its commands need and directories are as empty as they can be: an
+    emptiness-driven walk upwards (os.removedirs, os.renames) is not stopped by bystanders."""
+
+    def __init__(self, asfile):
+        self.asfile = asfile
+        self.log = []       # paths listed, created, removed, renamed, chmod-ed (every one walked)
+        self.probes = []    # paths whose existence / type was looked up (stat, exists, access, islink)
+        self.unmodelled = []
+        self.dirs = ["/", "/r", ROOT]
+        self.files = []
+        self.gone = []
+        self.path = _FakePath(self)
+
+    # -- strictness ---------------------------------------------------------------------------
     def __getattr__(self, name):
-        return getattr(os, name)
+        if name in _PURE_OS:
+            return getattr(os, name)
+        return self._refuse("os." + name)
 
+    def _refuse(self, name):
+        def unmodelled(*a, **k):
+            self.unmodelled.append(name)
+            raise _Unmodelled(name)
+        return unmodelled
+
+    # -- the tree -----------------------------------------------------------------------------
+    def _in(self, lst, p):
+        for e in lst:
+            if e == p:
+                return True
+        return False
+
+    def _kind(self, p, look):
+        if self._in(self.dirs, p):
+            return "d"
+        if self._in(self.files, p):
+            return "f"
+        if not look or self._in(self.gone, p) or not _contained(p, False):
+            return None
+        # first look at a path inside the root: it exists, with its ancestors
+        chain = []
+        q = p
+        while q != ROOT:
+            chain.append(q)
+            q = _split(q)[0]
+        if not self._in(self.dirs, ROOT):
+            return None
+        for anc in reversed(chain[1:]):
+            if self._in(self.files, anc) or self._in(self.gone, anc):
+                return None
+            if not self._in(self.dirs, anc):
+                self.dirs.append(anc)
+        (self.files if self.asfile else self.dirs).append(p)
+        return "f" if self.asfile else "d"
+
+    def _children(self, p):
+        return [e for e in self.dirs + self.files if e != p and _split(e)[0] == p]
+
+    def _drop(self, p):
+        self.dirs = [e for e in self.dirs if e != p]
+        self.files = [e for e in self.files if e != p]
+        self.gone.append(p)
+
+    def _add(self, p, kind):
+        self.gone = [e for e in self.gone if e != p]
+        (self.dirs if kind == "d" else self.files).append(p)
+
+    # -- single-path functions --------------------------------------------------------------
     def stat(self, p, *a, **k):
-        self._log.append(p)
-        return self._st
+        self.probes.append(p)
+        kind = self._kind(p, True)
+        if kind is None:
+            raise _err(errno.ENOENT)
+        return _DIRSTAT if kind == "d" else _FILESTAT
 
     lstat = stat
 
-    def listdir(self, p):
-        self._log.append(p)
-        return []
+    def access(self, p, mode, *a, **k):
+        self.probes.append(p)
+        return self._kind(p, True) is not None
 
-    def _one(self, p, *a, **k):
-        self._log.append(p)
+    def listdir(self, p="."):
+        self.log.append(p)
+        kind = self._kind(p, True)
+        if kind is None:
+            raise _err(errno.ENOENT)
+        if kind == "f":
+            raise _err(errno.ENOTDIR)
+        return [_split(e)[1] for e in self._children(p)]
 
-    makedirs = mkdir = remove = unlink = rmdir = chmod = _one
+    def mkdir(self, p, *a, **k):
+        self.log.append(p)
+        if self._kind(p, False) is not None:
+            raise _err(errno.EEXIST)
+        parent = self._kind(_split(p)[0], False)
+        if parent is None:
+            raise _err(errno.ENOENT)
+        if parent == "f":
+            raise _err(errno.ENOTDIR)
+        self._add(p, "d")
 
-    def rename(self, a, b_, *r, **k):
-        self._log.append(a)
-        self._log.append(b_)
+    def rmdir(self, p, *a, **k):
+        self.log.append(p)
+        kind = self._kind(p, True)
+        if kind is None:
+            raise _err(errno.ENOENT)
+        if kind == "f":
+            raise _err(errno.ENOTDIR)
+        if self._children(p):
+            raise _err(errno.ENOTEMPTY)
+        if p == "/":
+            raise _err(errno.EBUSY)
+        self._drop(p)
+
+    def remove(self, p, *a, **k):
+        self.log.append(p)
+        kind = self._kind(p, True)
+        if kind is None:
+            raise _err(errno.ENOENT)
+        if kind == "d":
+            raise _err(errno.EISDIR)
+        self._drop(p)
+
+    unlink = remove
+
+    def chmod(self, p, *a, **k):
+        self.log.append(p)
+        if self._kind(p, True) is None:
+            raise _err(errno.ENOENT)
+
+    def rename(self, src, dst, *a, **k):
+        self.log.append(src)
+        self.log.append(dst)
+        kind = self._kind(src, True)
+        if kind is None:
+            raise _err(errno.ENOENT)
+        parent = self._kind(_split(dst)[0], True)
+        if parent is None:
+            raise _err(errno.ENOENT)
+        if parent == "f":
+            raise _err(errno.ENOTDIR)
+        if src == dst:
+            return
+        dk = self._kind(dst, False)
+        if dk is not None and (dk != kind or self._children(dst)):
+            raise _err(errno.ENOTEMPTY if dk == "d" else errno.ENOTDIR)
+        if dk is not None:
+            self._drop(dst)
+        # the subtree moves along
+        moved = [(e, "d") for e in self.dirs if e.startswith(src + "/")]
+        moved += [(e, "f") for e in self.files if e.startswith(src + "/")]
+        for e, ek in moved:
+            self._drop(e)
+        self._drop(src)
+        self._add(dst, kind)
+        for e, ek in moved:
+            self._add(dst + e[len(src):], ek)
+
+    replace = rename
+
+    # -- multi-path functions: CPython's algorithms on the functions above ----------------------
+    def removedirs(self, name):
+        self.rmdir(name)
+        head, tail = _split(name)
+        if not tail:
+            head, tail = _split(head)
+        while head and tail:
+            try:
+                self.rmdir(head)
+            except OSError:
+                break
+            head, tail = _split(head)
+
+    def makedirs(self, name, mode=0o777, exist_ok=False):
+        head, tail = _split(name)
+        if not tail:
+            head, tail = _split(head)
+        if head and tail and not self._exists_quiet(head):
+            try:
+                self.makedirs(head, exist_ok=exist_ok)
+            except FileExistsError:
+                pass
+            if tail == ".":
+                return
+        try:
+            self.mkdir(name, mode)
+        except OSError:
+            if not exist_ok or self._kind(name, False) != "d":
+                raise
+
+    def _exists_quiet(self, p):
+        # os.path.exists inside makedirs/renames: looks at p, but an absent path stays absent
+        self.probes.append(p)
+        return self._kind(p, False) is not None
+
+    def renames(self, old, new):
+        head, tail = _split(new)
+        if head and tail and not self._exists_quiet(head):
+            self.makedirs(head)
+        self.rename(old, new)
+        head, tail = _split(old)
+        if head and tail:
+            try:
+                self.removedirs(head)
+            except OSError:
+                pass
+
+    # -- shutil (bound into the modules under test only if they import it) -------------------
+    def rmtree(self, p, *a, **k):
+        self.log.append(p)
+        if self._kind(p, True) != "d":
+            raise _err(errno.ENOTDIR)
+        for e in [e for e in self.dirs + self.files if e.startswith(p + "/")]:
+            self.log.append(e)
+            self._drop(e)
+        self._drop(p)
+
+    def move(self, src, dst, *a, **k):
+        self.rename(src, dst)
+        return dst
+
+
+class _FakePath:
+    """strict os.path: pure string functions pass through, filesystem predicates use the tree"""
+
+    def __init__(self, fs):
+        self._fs = fs
+
+    def __getattr__(self, name):
+        if name in _PURE_PATH:
+            return getattr(posixpath, name)
+        return self._fs._refuse("os.path." + name)
+
+    def exists(self, p):
+        self._fs.probes.append(p)
+        return self._fs._kind(p, True) is not None
+
+    lexists = exists
+
+    def isdir(self, p):
+        self._fs.probes.append(p)
+        return self._fs._kind(p, True) == "d"
+
+    def isfile(self, p):
+        self._fs.probes.append(p)
+        return self._fs._kind(p, True) == "f"
 
     def islink(self, p):
-        self._log.append(p)
+        self._fs.probes.append(p)
         return False
+
+
+class _FakeShutil:
+    def __init__(self, fs):
+        self._fs = fs
+        self.rmtree = fs.rmtree
+        self.move = fs.move
+
+    def __getattr__(self, name):
+        return self._fs._refuse("shutil." + name)
+
+
+_DIRSTAT = os.stat_result((0o040755, 1, 1, 1, 0, 0, 0, 0, 0, 0))
+_FILESTAT = os.stat_result((0o100644, 2, 1, 1, 0, 0, 0, 0, 0, 0))
+_MISSING = object()
+
+
+def _install(fs):
+    """bind the fake into both modules under test; returns the undo list"""
+    sh = _FakeShutil(fs)
+    new = [(_ftp, "os", fs), (_fp, "os", fs), (_fp, "stat", fs.stat), (_fp, "listdir", fs.listdir),
+           (_fp, "utime", fs._refuse("os.utime")), (_fp, "exists", fs.path.exists), (_fp, "islink", fs.path.islink)]
+    for mod in (_ftp, _fp):
+        if hasattr(mod, "shutil"):
+            new.append((mod, "shutil", sh))
+    undo = [(mod, name, getattr(mod, name, _MISSING)) for mod, name, _ in new]
+    for mod, name, val in new:
+        setattr(mod, name, val)
+    return undo
+
+
+def _uninstall(undo):
+    for mod, name, val in undo:
+        if val is _MISSING:
+            delattr(mod, name)
+        else:
+            setattr(mod, name, val)
 
 
 _OPS = ["CWD", "MKD", "RMD", "DELE", "RNTO", "RNFR"]
@@ -167,13 +468,11 @@ def session(p1: str, p2: str, op: int) -> bool:
     pre: len(p1) + len(p2) <= B['s'] and 0 <= op <= 5
     post: _
     """
-    log = []
-    # stat answers "directory" except for DELE (which refuses directories): every operation goes as
-    # far into the filesystem layer as it can
-    fos = _FakeOS(log, op != 3)
-    saved = (_ftp.os, _fp.os, _fp.stat, _fp.listdir, _fp.islink)
-    _ftp.os = fos
-    _fp.os, _fp.stat, _fp.listdir, _fp.islink = fos, fos.stat, fos.listdir, fos.islink
+    # what the session looks at exists as a directory, for DELE (which refuses directories) as a
+    # regular file: every operation goes as far into the filesystem layer as it can
+    fs = _FakeFS(op == 3)
+    log = fs.log
+    undo = _install(fs)
     try:
         srv = _ftp.FTP()
         srv.shell = _ftp.FTPShell(FilePath(ROOT))
@@ -195,8 +494,8 @@ def session(p1: str, p2: str, op: int) -> bool:
             srv.ftp_RNFR(p2)
             r2 = _run(srv.ftp_RNTO("x"))
     finally:
-        _ftp.os, _fp.os, _fp.stat, _fp.listdir, _fp.islink = saved
-    api.obs((r1, r2, wd, list(log)))
+        _uninstall(undo)
+    api.obs((r1, r2, wd, list(fs.probes), list(log), list(fs.unmodelled)))
     cover()
     if r2 == "ok":
         cover("done")
@@ -204,11 +503,18 @@ def session(p1: str, p2: str, op: int) -> bool:
         return False
     if op != 0 and srv.workingDirectory != wd:      # only CWD moves the working directory
         return False
-    for p in log:
+    if fs.unmodelled:          # a filesystem function the fake does not model was called
+        return False
+    for p in log:              # listed / created / removed / renamed, parents walked included
         if not (isinstance(p, str) and _contained(p, False)):
             return False
+    for p in fs.probes:
+        # existence lookups too, except of the root's own ancestors: os.makedirs(root) (MKD /) asks
+        # whether '/r' exists before it fails with EEXIST; that opens, lists or changes nothing
+        if not (isinstance(p, str) and (_contained(p, False) or p == "/r" or p == "/")):
+            return False
     # the operation really reached the filesystem layer whenever it reported success
-    return r2 != "ok" or len(log) > 0
+    return r2 != "ok" or len(log) + len(fs.probes) > 0
 
 
 _SHAPES = [(), (1,), (2,), (1, 1), (1, 2), (2, 1), (2, 2), (3,), (3, 1), (1, 3)]
@@ -256,7 +562,8 @@ VECTORS = {
                  (["x"], "../../abc"), ([], "/../abc"), (["a"], "b//c/./d"), ([], ""), (["a"], "..."), ([], "a\\..\\b")],
     "anonymous": [([], "a/b"), (["a"], "../.."), ([], "..")],
     "session": [("a", "b", 1), ("..", "x", 3), ("a/b", "../../..", 0), ("/", "../abc", 2),
-                ("a", "/b", 4), ("a", "..", 5), ("\x00", "a", 1), ("a", "", 0)],
+                ("a", "/b", 4), ("a", "..", 5), ("\x00", "a", 1), ("a", "", 0), ("", "x", 2), ("x", "/", 1),
+                ("a/b", "/a/b", 2), ("a", "../..", 2)],
 }
 
 
